@@ -1,0 +1,54 @@
+//go:build verif
+
+// Contracts for package analysis, checked by /verif/gocv (comment-only file; no code).
+
+package analysis
+
+// ---- C03: dependency graph and stratification -----------------------------------------------------
+
+//@ spec func wfGraph(dep depGraph) bool = dep != nil && (forall k ast.PredicateSym :: k in dep ==> dep[k] != nil)
+//@ func (dep depGraph) initNode(src)
+//@   requires wfGraph(dep)
+//@   modifies dep
+//@   ensures src in dep && dep[src] != nil
+//@   ensures old(src in dep) ==> dep[src] == old(dep[src])
+//@   ensures !old(src in dep) ==> fresh(dep[src]) && len(dep[src]) == 0 && (forall k ast.PredicateSym :: !(k in dep[src]))
+//@   ensures forall k ast.PredicateSym :: k != src ==> (k in dep) == old(k in dep) && dep[k] == old(dep[k])
+//@   ensures wfGraph(dep)
+
+// Negation is sticky: once a dependency is recorded as negated (or aggregated) it stays so.
+//@ func (dep depGraph) addEdge(src, dest, negated)
+//@   requires dep != nil && src in dep && dep[src] != nil
+//@   modifies dep[src]
+//@   ensures dest in dep[src]
+//@   ensures dep[src][dest] == (negated || (old(dest in dep[src]) && old(dep[src][dest])))
+//@   ensures forall k ast.PredicateSym :: k != dest ==> (k in dep[src]) == old(k in dep[src]) && dep[src][k] == old(dep[src][k])
+
+// A body literal mentions a predicate, possibly negated; a mention inside a temporally annotated literal
+// counts like any other (properties file, C03).
+//@ spec func lit(t ast.Term) ast.Term = t is ast.TemporalLiteral ? (t as ast.TemporalLiteral).Literal : t
+//@ spec func mentions(t ast.Term) bool = lit(t) is ast.Atom || lit(t) is ast.NegAtom
+//@ spec func negated(t ast.Term) bool = lit(t) is ast.NegAtom
+//@ spec func pred(t ast.Term) ast.PredicateSym = lit(t) is ast.Atom ? (lit(t) as ast.Atom).Predicate : (lit(t) as ast.NegAtom).Atom.Predicate
+//@ spec func isDo(r ast.Clause) bool = r.Transform != nil && !r.Transform.IsLetTransform()
+// counted: the mention creates a dependency (not a base predicate; positive built-in atoms are not dependencies)
+//@ spec func counted(program Program, t ast.Term) bool =
+//@      mentions(t) && !(pred(t) in program.EdbPredicates) && (negated(t) || !(pred(t) in builtin.Predicates))
+//@ spec func edgeOK(dep depGraph, r ast.Clause, t ast.Term) bool =
+//@      r.Head.Predicate in dep && pred(t) in dep[r.Head.Predicate] && ((negated(t) || isDo(r)) ==> dep[r.Head.Predicate][pred(t)])
+//@ spec func rulesDone(program Program, dep depGraph, n int) bool =
+//@      forall ri int, pi int :: 0 <= ri && ri < n && 0 <= pi && pi < len(program.Rules[ri].Premises) && counted(program, program.Rules[ri].Premises[pi])
+//@         ==> edgeOK(dep, program.Rules[ri], program.Rules[ri].Premises[pi])
+
+//@ func makeDepGraph(program)
+//@   ensures wfGraph(result)
+//@   ensures rulesDone(program, result, len(program.Rules))
+//@   ensures forall ri int :: 0 <= ri && ri < len(program.Rules) ==> program.Rules[ri].Head.Predicate in result
+//@   loop 1 invariant wfGraph(dep) && 0 <= rangeindex + 1 && rangeindex + 1 <= len(program.Rules)
+//@   loop 1 invariant rulesDone(program, dep, rangeindex + 1)
+//@   loop 1 invariant forall ri int :: 0 <= ri && ri < rangeindex + 1 ==> program.Rules[ri].Head.Predicate in dep
+//@   loop 2 invariant wfGraph(dep) && 0 <= rangeindex && rangeindex < len(program.Rules) && rule == program.Rules[rangeindex] && s == rule.Head.Predicate && s in dep
+//@   loop 2 invariant 0 <= rangeindex#2 + 1 && rangeindex#2 + 1 <= len(rule.Premises)
+//@   loop 2 invariant rulesDone(program, dep, rangeindex)
+//@   loop 2 invariant forall ri int :: 0 <= ri && ri < rangeindex ==> program.Rules[ri].Head.Predicate in dep
+//@   loop 2 invariant forall pi int :: 0 <= pi && pi < rangeindex#2 + 1 && counted(program, rule.Premises[pi]) ==> edgeOK(dep, rule, rule.Premises[pi])
